@@ -106,6 +106,13 @@ LI = "zkabacus-crypto/src/lib.rs"
 mutant("balance-bound-off-by-one", LI, "        if value > i64::MAX as u64 {", "        if value >= i64::MAX as u64 {", ["C17", "C04"])
 mutant("try-add-wrapping", ST, "MerchantBalance::try_new(self.into_inner() + rhs.into_inner())", "MerchantBalance::try_new(self.into_inner().wrapping_add(rhs.into_inner()) & (i64::MAX as u64))", ["C17"])
 mutant("started-serialises-states-swapped", CU, "pub struct Started {\n    new_state: State,\n    old_state: State,", "pub struct Started {\n    #[serde(rename = \"old_state\")]\n    new_state: State,\n    #[serde(rename = \"new_state\")]\n    old_state: State,", [], why="bincode ignores field names: behaviour-preserving edit, must NOT raise an alarm")
+# --- behaviour-preserving edits: NO check may raise an alarm (exit 0 everywhere)
+mutant("neutral-reorder-establish-proof-fields", P, "    // Proof objects.\n    state_proof: SignatureRequestProof<5>,\n    close_state_proof: SignatureRequestProof<5>,\n}\n\nimpl EstablishProof {",
+       "    // Proof objects.\n    close_state_proof: SignatureRequestProof<5>,\n    state_proof: SignatureRequestProof<5>,\n}\n\nimpl EstablishProof {", [], why="NEUTRAL: wire layout of EstablishProof changes (fields re-ordered), behaviour does not")
+mutant("neutral-reorder-pay-proof-fields", P, "    old_pay_token_proof: SignatureProof<5>,\n    old_revocation_lock_proof: CommitmentProof<G1Projective, 1>,\n    state_proof: SignatureRequestProof<5>,",
+       "    old_revocation_lock_proof: CommitmentProof<G1Projective, 1>,\n    state_proof: SignatureRequestProof<5>,\n    old_pay_token_proof: SignatureProof<5>,", [], why="NEUTRAL: wire layout of PayProof changes, behaviour does not")
+mutant("neutral-domain-separator-in-challenges", "zkchannels-crypto/src/proofs/challenge.rs", "        Self {\n            hasher: Sha3_256::new(),", "        Self {\n            hasher: Sha3_256::new().chain(b\"zkchannels-v2\"),", [], why="NEUTRAL: every challenge hashes an extra domain separator on both sides")
+mutant("neutral-reorder-state-fields", ST, "pub struct State {\n    channel_id: ChannelId,\n    nonce: Nonce,\n    revocation_pair: RevocationPair,", "pub struct State {\n    nonce: Nonce,\n    channel_id: ChannelId,\n    revocation_pair: RevocationPair,", [], why="NEUTRAL: stored customer stages change layout, behaviour does not")
 json.dump(index, open(os.path.join(OUT, "index.json"), "w"), indent=1)
 sh("git", "-C", "/repo", "worktree", "remove", "--force", WT)
 print(len(index), "mutants written")
